@@ -1,5 +1,5 @@
 """C02 -- main-text fidelity.  Specs: Doc.tla (document algebra, Flatten, Req, Fidelity, deviations),
-DocGen.tla (bounded universe of document shapes), DocTrace.tla (trace validation).
+DocGen.tla / DocGen2.tla (bounded universes of document shapes), DocTrace.tla (trace validation).
 
 spec -> code: every shape TLC enumerates is numbered, rendered by the writers to every format
 that can express it, and extracted by the real library.
@@ -13,160 +13,27 @@ from __future__ import annotations
 import json
 import random
 
-from ..docrun import expressible, flow_doc, from_tla, normalize, number_blocks, run_jobs
-from ..tlaval import iter_dump, to_tla
-from ..tlc import MachineryError, run_tlc
-from ..traces import validate
+from ..docsuite import FLOW_FORMATS, MULTI, build_jobs, run_suite, validate_with_findings
 
-FLOW_FORMATS = ["docx", "odt", "html", "mhtml", "epub", "rtf"]
-
-# finding id -> deviation name (only OPEN findings are consulted; see known_findings.json)
+# finding id -> deviation name (only OPEN findings are consulted)
 FINDING_DEV = {
-    "KF-C02-01": "Docx!TabBreakDropped",
-    "KF-C02-02": "Docx!BlockSdtLost",
-    "KF-C02-03": "Docx!NestedTableRepeated",
-    "KF-C02-04": "Odt!NestedRepeated",
-    "KF-C02-05": "Odt!TrackedDeletionLeaks",
-    "KF-C02-06": "Html!NestedTableRepeated",
-    "KF-C02-07": "Epub!TableTextDropped",
     "KF-C02-08": "Rtf!DeletedLeaks",
     "KF-C02-10": "Xlsx!UnnamedHeaderPlaceholder",
 }
 
-MULTI = {"deck": ["pptx", "odp", "odg"], "book": ["xlsx", "ods"],
-         "pages": ["pdf", "txt", "md", "csv", "tsv", "json", "rtf"]}
-
-
-def gen_units(ctx, kind, max_units):
-    cfg = f'SPECIFICATION Spec\nCONSTANTS Kind = "{kind}"\n MaxUnits = {max_units}\n'
-    dump = ctx.scratch / f"docgen2-{kind}-{max_units}.dump"
-    r = run_tlc("DocGen2", cfg, scratch=ctx.scratch, dump=dump, heap="8g")
-    ctx.ev.tlc(f"DocGen2 Kind={kind} MaxUnits={max_units}: multi-unit shapes", r)
-    shapes = sorted((from_tla(s["units"]) for s in iter_dump(dump)), key=lambda b: json.dumps(b))
-    if len(shapes) != r.distinct:
-        raise MachineryError(f"DocGen2 dump {len(shapes)} != {r.distinct}")
-    return shapes
-
-
-def multi_docs(ctx, rng, quick_cap=350):
-    """Decks / workbooks / paged documents from DocGen2 (all up to 2 units; 3 units sampled in quick)."""
-    from ..docrun import number_units
-    docs = []
-    for kind in ("deck", "book", "pages"):
-        shapes = gen_units(ctx, kind, 3 if kind != "deck" or ctx.thorough else 2)
-        if not ctx.thorough and len(shapes) > quick_cap:
-            small = [s for s in shapes if len(s) <= (1 if kind == "deck" else 2)]
-            rest = [s for s in shapes if s not in small]
-            rng.shuffle(rest)
-            shapes = small + rest[: quick_cap - len(small)]
-        docs += [number_units(kind, sh) for sh in shapes]
-    return docs
-
-
-def gen_shapes(ctx, max_blocks, rich):
-    cfg = f"SPECIFICATION Spec\nCONSTANTS MaxBlocks = {max_blocks}\n Rich = {'TRUE' if rich else 'FALSE'}\n"
-    dump = ctx.scratch / f"docgen-{max_blocks}-{int(rich)}.dump"
-    r = run_tlc("DocGen", cfg, scratch=ctx.scratch, dump=dump, heap="8g")
-    ctx.ev.tlc(f"DocGen MaxBlocks={max_blocks} Rich={rich}: document shapes", r)
-    shapes = sorted((from_tla(s["blocks"]) for s in iter_dump(dump)), key=lambda b: json.dumps(b))
-    if len(shapes) != r.distinct:
-        raise MachineryError(f"DocGen dump {len(shapes)} != {r.distinct}")
-    return shapes
-
-
-def trace_cfg(dev):
-    return f"SPECIFICATION TraceSpec\nCONSTANTS Dev = {to_tla(set(dev))}\nCONSTRAINT TraceAccept\n"
-
-
-def validate_with_findings(ctx, spec, traces, finding_dev, describe, where):
-    """Strict validation; rejected traces are retried with each open finding's deviation (then all)."""
-    v, ev = ctx.v, ctx.ev
-    br = validate(spec, trace_cfg(set()), traces, scratch=ctx.scratch, parallel=14, min_chunk=150)
-    ev.tlc_counts(f"{spec}: strict validation of {len(traces)} traces", br.distinct, br.states, br.wall_s)
-    rejected = [(t, tv) for t, tv in zip(traces, br.verdicts) if not tv.accepted]
-    v.ok(len(traces) - len(rejected))
-    if not rejected:
-        return
-    open_devs = {fid: d for fid, d in finding_dev.items() if v.open_finding(fid)}
-    remaining = [t for t, _ in rejected]
-    explained = {}
-    for fid, d in sorted(open_devs.items()):
-        if not remaining:
-            break
-        b2 = validate(spec, trace_cfg({d}), remaining, scratch=ctx.scratch, parallel=14, min_chunk=150)
-        ev.tlc_counts(f"{spec}: as-built validation with {d}", b2.distinct, b2.states, b2.wall_s)
-        nxt = []
-        for t, tv in zip(remaining, b2.verdicts):
-            if tv.accepted:
-                explained[t["id"]] = [fid]
-            else:
-                nxt.append(t)
-        remaining = nxt
-    if remaining and len(open_devs) > 1:
-        b3 = validate(spec, trace_cfg(set(open_devs.values())), remaining, scratch=ctx.scratch, parallel=14, min_chunk=150)
-        ev.tlc_counts(f"{spec}: as-built validation with all open deviations", b3.distinct, b3.states, b3.wall_s)
-        nxt = []
-        for t, tv in zip(remaining, b3.verdicts):
-            if tv.accepted:
-                explained[t["id"]] = sorted(open_devs)
-            else:
-                nxt.append(t)
-        remaining = nxt
-    rem_ids = {t["id"] for t in remaining}
-    for t, tv in rejected:
-        if t["id"] in rem_ids:
-            e = t["ev"][min(tv.reached, len(t["ev"]) - 1)]
-            v.violation(what=describe(t, e), case={"fmt": t["hdr"]["fmt"], "doc": t["hdr"]["doc"], "event": e},
-                        observed=t.get("raw"), where=where(t))
-        else:
-            for fid in explained[t["id"]]:
-                e = t["ev"][min(tv.reached, len(t["ev"]) - 1)]
-                v.known(fid, describe(t, e), case=None)
-
 
 def run(ctx):
-    ev, v = ctx.ev, ctx.v
+    ev = ctx.ev
     rng = random.Random(ctx.seed)
-    shapes1 = gen_shapes(ctx, 1, True)
-    if ctx.thorough:
-        shapes2 = gen_shapes(ctx, 2, False)
-    else:
-        shapes2 = gen_shapes(ctx, 2, False)
-        shapes2 = [s for s in shapes2 if len(s) == 2]
-        rng.shuffle(shapes2)
-        shapes2 = shapes2[:1200]
-    shapes = shapes1 + [s for s in shapes2 if len(s) == 2]
-    docs = []
-    for k, sh in enumerate(shapes):
-        blocks, nxt = number_blocks(sh, 1)
-        hdr = [["r", nxt]] if k % 3 == 0 else []
-        ftr = [["r", nxt + 1]] if k % 3 == 1 else []
-        docs.append(flow_doc(blocks, hdr, ftr))
-    mdocs = multi_docs(ctx, rng)
-    jobs = [{"doc": d, "fmt": f} for d in docs for f in FLOW_FORMATS if expressible(d, f)]
-    for d in mdocs:
-        for f in MULTI[d["kind"]]:
-            if f == "odg":      # a drawing has no speaker notes: same pages without the notes
-                d2 = dict(d, slides=[dict(s, notes=[]) for s in d["slides"]])
-                jobs.append({"doc": d2, "fmt": f})
-            else:
-                jobs.append({"doc": d, "fmt": f})
-    docs = docs + mdocs
-    ctx.log(f"{len(docs)} documents, {len(jobs)} (document, format) extractions")
-    obs = run_jobs(jobs)
-    traces = []
-    for k, (j, o) in enumerate(zip(jobs, obs)):
-        hdr = {"fmt": j["fmt"], "doc": normalize(j["doc"])}
-        if "exc" in o:
-            v.violation(what=f"extractor raised {o['exc']} on a generated well-formed {j['fmt']} document: {o['msg']}",
-                        case=hdr, where=f"read_{j['fmt']}")
-            continue
-        traces.append({"id": f"{j['fmt']}:{k}", "hdr": hdr, "raw": o.get("full_raw"),
-                       "ev": [{"a": "Text", **o["text"]}]})
-        if o["text"]["obs"]:
-            ev.nontrivial((j["fmt"], json.dumps(hdr["doc"]["units"])))
+    jobs, ndocs = build_jobs(ctx, rng)
+    ctx.log(f"{ndocs} documents, {len(jobs)} (document, format) extractions")
+    traces = run_suite(ctx, jobs, lambda j, o: [{"a": "Text", **o["text"]}], "text")
+    for t in traces:
+        if t["ev"][0]["obs"]:
+            ev.nontrivial((t["hdr"]["fmt"], json.dumps(t["hdr"]["doc"]["units"])))
     for t in traces[:: max(1, len(traces) // 6)]:
-        ev.sample({"fmt": t["hdr"]["fmt"], "blocks": t["hdr"]["doc"]["units"][0]["blocks"], "observed": t["ev"][0]})
+        ev.sample({"fmt": t["hdr"]["fmt"], "units": [u["blocks"] for u in t["hdr"]["doc"]["units"]],
+                   "observed": t["ev"][0]})
 
     def describe(t, e):
         return (f"get_full_text() of a generated {t['hdr']['fmt']} document violates main-text fidelity: "
@@ -176,9 +43,11 @@ def run(ctx):
     validate_with_findings(ctx, "DocTrace", traces, FINDING_DEV, describe,
                            lambda t: f"{t['hdr']['fmt']} extractor text walk")
     ev.replayed(len(traces))
-    ev.set(rule="document shapes enumerated by TLC (DocGen: all 1-block documents, 2-block documents "
-                + ("all" if ctx.thorough else "seeded sample of 1200") + ") x every flow format that can express them; "
-                "non-trivial = distinct (format, body) with at least one token extracted",
-           exhaustive=bool(ctx.thorough), constants={"formats": FLOW_FORMATS, "documents": len(docs)})
+    ev.set(rule="document shapes enumerated by TLC (DocGen: all 1-block flow documents, 2-block documents "
+                + ("all" if ctx.thorough else "seeded sample") + "; DocGen2: decks, workbooks, paged documents up to 3 units) "
+                "x every format that can express them; non-trivial = distinct (format, document) with at least one "
+                "token extracted", exhaustive=bool(ctx.thorough),
+           constants={"flow_formats": FLOW_FORMATS, "multi_unit_formats": MULTI, "documents": ndocs})
     ev.assume("writers in mbv/writers are the trusted base (hand-written minimal packages accepted by the extractors)",
-              "Req(fmt, class) transcribed from README and the statement of C02; footnote text is DON'T-CARE")
+              "Req(fmt, class) transcribed from README and the statement of C02; footnote text is DON'T-CARE; "
+              "cell text of odp/epub is looked up in the tables (C13)")
